@@ -404,7 +404,10 @@ def _names(term: P, params):
 LOSSY = {"floor", "ceil", "round", "int", "len", "numpy.floor", "numpy.ceil", "numpy.round", "numpy.rint", "numpy.trunc", "numpy.sign", "type", "id",
          "numpy.shape", "numpy.size", "bool", "abs", "numpy.abs", "hash", "numpy.fix",
          "sorted", "set", "frozenset", "numpy.unique", "numpy.sort", "collections.Counter", "sum", "numpy.sum", "max", "min", "numpy.max", "numpy.min",
-         ".sum", ".max", ".min", ".mean", "numpy.mean", "numpy.linalg.norm"}
+         ".sum", ".max", ".min", ".mean", "numpy.mean", "numpy.linalg.norm",
+         "numpy.bincount", "numpy.histogram", "numpy.count_nonzero", "numpy.any", "numpy.all", "any", "all", "numpy.prod", ".prod", ".any", ".all",
+         "numpy.median", "numpy.argmax", "numpy.argmin", ".argmax", ".argmin", "numpy.argsort", ".argsort", "numpy.trace", "numpy.linalg.det",
+         "numpy.ptp", ".ptp", "numpy.std", ".std", "numpy.var", ".var", "numpy.average"}
 
 
 def _drop_lossy(term: P) -> P:
